@@ -75,6 +75,14 @@ CHECKS = {
              "decrypt every attribute to exactly the API's (and the harness's own stored) value, IVs must be pairwise distinct, a wrong PIN must open "
              "nothing and no mode bit may lie outside objectstore.umask.",
         note="File store; trusted base: py/p11mc/storefmt.py, refsh (Botan), hashlib; values shorter than 8 bytes are only covered by the decoder comparison."),
+    "C05": dict(
+        category="model_checking", design_ref="DESIGN.md 3/C05",
+        technique="explicit-state BFS over object histories on the real library with three observers per state (running instance, re-initialised instance, independent raw-file decoder) plus golden token directories written by the pinned commit",
+        text="Every history of create (all attribute kinds incl. mechanism sets, nested templates, dates, a byte-string length ladder up to 64 KiB / 300 kB), "
+             "copy, set (shorter, longer, ladder values), destroy and session objects up to depth 3 (quick) / 4 (thorough) is executed; in each state all "
+             "attribute values must agree between the running instance, a restarted instance and the decoder; golden file and SQLite tokens from the pinned "
+             "commit must open with their PINs, return exactly the recorded values and stay modifiable.",
+        note="Histories on the file store (SQLite through its golden fixture); fs-fault injection not included yet; trusted base: storefmt.py, refsh."),
 }
 
 NOT_YET = "check under construction in this session; not claimed yet (DESIGN.md Appendix D gives the build order)"
